@@ -284,8 +284,8 @@ def handle (line : String) : String :=
       | .error _ => "O"
       | .ok fd =>
         " ".intercalate (codes256.map (fun c =>
-          if Spec.judgedCode tables fd c then
-            cpsStr (Spec.specText tables fd c) ++ "|" ++ ratToString (Spec.specWidth tables fd c)
+          if Spec.judgedCodeX tables fd c then
+            cpsStr (Spec.specTextX tables fd c) ++ "|" ++ ratToString (Spec.specWidthX tables fd c)
           else "?"))
     | none => "bad-op"
   | "t1write" :: padw :: itemws =>
